@@ -1,4 +1,5 @@
 import GoSquare.Properties.C08
+import GoSquare.Proofs.CompactSub
 /-! # C10 — share wire format is byte-exact per the share specification
 
 `Spec.Format` is written field by field from the share specification, independently of the Go
@@ -88,5 +89,16 @@ theorem accessors_on_blob_shares (b : Blob) (hb : b.BlobValid) :
 /-- **C10 (accessors on padding shares).** -/
 theorem accessors_on_padding (ns : Bytes) (ver : Nat) (hns : ns.length = 29) (hv : ver = 0 ∨ ver = 1) :
     Share.isPadding (Spec.paddingShare ns ver) = true := (C08.paddingShare_isPad ns ver hns hv).2
+
+/-- **C10 (accessors on compact shares).** On EVERY share of a specified compact sequence (= what the
+    compact writer emits, C09), whatever the transactions: share version 0; the payload accessor
+    returns the share's slice of the zero-padded unit stream; entering through the reserved bytes
+    returns nothing when no unit starts in the share and otherwise the payload from the first unit
+    start. -/
+theorem accessors_on_compact_shares (ns : Bytes) (hc : CompactNs ns) (D : Bytes) (S : List Nat) (j : Nat) :
+    Share.version (specShare ns D S j) = 0 ∧ Share.rawData (specShare ns D S j) = compactPayload D j ∧
+    Share.rawDataUsingReserved (specShare ns D S j) =
+      .ok (if resOf S j = 0 then [] else (compactPayload D j).drop (resOf S j - compactHdr j)) :=
+  spec_share_accessors ns hc D S j
 
 end GoSquare.C10
